@@ -42,8 +42,9 @@ func c13Pool(kind string) []lexeme {
 		return p
 	}
 	if kind == "expression+keywords-edited" {
-		// the exported keyword list is replaced AFTER the tokenizer was built and used: LIKE is no keyword
-		// any more, BETWEEN is one (the list in force is the one at the time of tokenizing)
+		// the exported keyword list is replaced AFTER the tokenizer was built and used (on "like", not on
+		// "between"): LIKE is no keyword any more, BETWEEN is one. The list in force is the current one or,
+		// for every word alike, the one at construction
 		p = append(p, lx(tokenizers.Word, "like", "LIKE", "Like", "abc", "betweens")...)
 		p = append(p, lx(tokenizers.Keyword, "between", "BETWEEN", "Between", "AND", "or", "null")...)
 		p = append(p, lx(tokenizers.Integer, "1")...)
@@ -138,7 +139,8 @@ func canAbut(kind string, a, b lexeme) bool {
 		}
 		return !isWordCharConservative(bf)
 	case tokenizers.Integer, tokenizers.Float:
-		return !isWordCharConservative(bf) && bf != '.' && bf != '+'
+		// the number grammar is ASCII: only a digit, a point, an exponent letter or a sign can continue a number
+		return !(bf >= '0' && bf <= '9') && bf != '.' && bf != '+' && bf != '-' && bf != 'e' && bf != 'E'
 	case tokenizers.Quoted:
 		if kind == "expression" {
 			return bf != ar[0]
@@ -169,9 +171,30 @@ func canAbut(kind string, a, b lexeme) bool {
 		if fullKind == "generic+latesymbols" && b.typ == tokenizers.Symbol {
 			return true // runs of symbols are re-segmented by the reference (longest registered symbol first)
 		}
+		// symbols registered beyond the documented ones are configuration: a pair that, alone, comes back
+		// as one symbol can merge
+		if c13OneSymbolAlone(fullKind, a.text+string(bf)) || (b.typ == tokenizers.Symbol && c13OneSymbolAlone(fullKind, a.text+b.text)) {
+			return false
+		}
 		return longestSymbol(fullKind, a.text+b.text) == a.text
 	}
 	return false
+}
+
+var c13AloneMemo = map[string]bool{}
+
+func c13OneSymbolAlone(kind string, s string) bool {
+	if kind == "expression+keywords-edited" {
+		kind = "expression"
+	}
+	key := kind + "\x00" + s
+	if v, ok := c13AloneMemo[key]; ok {
+		return v
+	}
+	r := tokenizeOn(c13New(kind), s)
+	v := !r.failed() && len(r.toks) == 2 && r.toks[0].typ == tokenizers.Symbol && r.toks[0].val == s
+	c13AloneMemo[key] = v
+	return v
 }
 
 var c13Tok = map[string]tokenizers.ITokenizer{}
@@ -201,7 +224,7 @@ func c13New(kind string) tokenizers.ITokenizer {
 		g.SymbolState().Add("\u223c=", tokenizers.Symbol)
 	case "expression+keywords-edited":
 		// built and used under the default keyword list
-		fw.Try(func() { t.TokenizeBuffer("a like b and 1 between") })
+		fw.Try(func() { t.TokenizeBuffer("a like b and 1") })
 	case "expression+cyrillic":
 		e := t.(*calctok.ExpressionTokenizer)
 		e.SetCharacterState(0x0400, 0x04ff, e.WordState())
@@ -288,7 +311,7 @@ func c13Run(c *fw.Ctx, kind string, pool []lexeme, seq []int, mode int) {
 	}
 	res := tokenizeOn(t, in)
 	c.Eval(1)
-	ok := func(r tokResult) bool {
+	okFor := func(r tokResult, want []lexeme) bool {
 		if r.failed() || len(r.toks) != len(want)+1 {
 			return false
 		}
@@ -298,6 +321,25 @@ func c13Run(c *fw.Ctx, kind string, pool []lexeme, seq []int, mode int) {
 			}
 		}
 		return r.toks[len(want)].typ == tokenizers.Eof
+	}
+	ok := func(r tokResult) bool {
+		if okFor(r, want) {
+			return true
+		}
+		if kind == "expression+keywords-edited" {
+			// whether an object built earlier follows the list at its construction or the current one is
+			// not pinned; it must follow ONE of them for every word of the input
+			old := append([]lexeme{}, want...)
+			for i, w := range old {
+				if strings.EqualFold(w.text, "like") {
+					old[i].typ = tokenizers.Keyword
+				} else if strings.EqualFold(w.text, "between") {
+					old[i].typ = tokenizers.Word
+				}
+			}
+			return okFor(r, old)
+		}
+		return false
 	}
 	if !ok(res) {
 		delete(c13Tok, kind)
@@ -344,13 +386,68 @@ func c13Run(c *fw.Ctx, kind string, pool []lexeme, seq []int, mode int) {
 	}
 }
 
+// class of a one-character lexeme by the documented dispatch tables of the two tokenizers (0 = the
+// character starts a number, a string or a comment, or cannot be dispatched: not used on its own)
+func c13StartClass(kind string, ch rune) int {
+	if ch > 0xfffe || ch < 0 || (ch >= 0xd800 && ch <= 0xdfff) {
+		return 0
+	}
+	switch {
+	case ch <= ' ':
+		return tokenizers.Whitespace
+	case ch >= 'a' && ch <= 'z', ch >= 'A' && ch <= 'Z', ch >= 0xc0 && ch <= 0xff:
+		return tokenizers.Word
+	case ch >= '0' && ch <= '9', ch == '-', ch == '.', ch == '"', ch == '\'':
+		return 0
+	}
+	if kind == "generic" {
+		if ch == '#' {
+			return 0
+		}
+		if ch >= 0x100 {
+			return tokenizers.Word
+		}
+		return tokenizers.Symbol
+	}
+	if ch == '/' {
+		return 0
+	}
+	if ch == '_' {
+		return tokenizers.Word
+	}
+	return tokenizers.Symbol
+}
+
+var c13Neighbours = []lexeme{{"12", tokenizers.Integer}, {"1.5", tokenizers.Float}, {"1.", tokenizers.Float}, {"abc", tokenizers.Word}, {"<", tokenizers.Symbol}, {"(", tokenizers.Symbol}, {"'a'", tokenizers.Quoted}, {" ", tokenizers.Whitespace}}
+
+// c13CharCase: one boundary character as a lexeme of its own class next to each neighbour lexeme, abutting
+func c13CharCase(i int64) (kind string, pool []lexeme, seq []int, ok bool) {
+	nn := int64(len(c13Neighbours))
+	shape := int(i % 3)
+	i /= 3
+	l := int(i % nn)
+	i /= nn
+	kind = []string{"generic", "expression"}[i%2]
+	ch := boundaryChars[i/2]
+	cls := c13StartClass(kind, ch)
+	if cls == 0 {
+		return kind, nil, nil, false
+	}
+	if cls == tokenizers.Word && strings.EqualFold(string(ch), "x") {
+		return kind, nil, nil, false
+	}
+	pool = []lexeme{c13Neighbours[l], {string(ch), cls}}
+	seq = [][]int{{0, 1}, {1, 0}, {0, 1, 0}}[shape]
+	return kind, pool, seq, true
+}
+
 func init() {
 	fw.Register(&fw.Check{
 		ID:    "C13",
 		Level: "model_checking",
 		Rule: "generic and expression tokenizer: every sequence up to the length bound over a pool of class-tagged lexemes (identifiers incl. Latin-1/non-Latin, every keyword in several letter cases, integers, decimals, scientific/signed numbers, quoted strings with doubled quotes/LF/non-ASCII, comments, whitespace runs, every single- and multi-character symbol), " +
-			"the same over smaller pools for a generic tokenizer with U+2190..22FF configured as symbols and an expression tokenizer with U+0400..04FF configured as identifier letters (SetCharacterState on top of the default non-Latin range); (mode 0) separated by one blank and (mode 1) abutting wherever a conservative boundary table says neighbours cannot merge; oracle: TokenizeStream returns exactly those lexemes with exactly those classes; non-trivial = sequences of >=2 lexemes that were not skipped",
-		Assume: []string{"the conservative abutting table only ever skips sequences; it never predicts a segmentation"},
+			"the same over smaller pools for a generic tokenizer with U+2190..22FF configured as symbols and an expression tokenizer with U+0400..04FF configured as identifier letters (SetCharacterState on top of the default non-Latin range); (mode 0) separated by one blank and (mode 1) abutting wherever a conservative boundary table says neighbours cannot merge; plus every boundary character (one or more of every Unicode general category among them) as a one-character lexeme of the class its dispatch table gives it, abutting before, after and between 8 neighbour lexemes; oracle: TokenizeStream returns exactly those lexemes with exactly those classes; non-trivial = sequences of >=2 lexemes that were not skipped",
+		Assume: []string{"the conservative abutting table only ever skips sequences; it never predicts a segmentation", "multi-character symbols beyond the documented ones are taken as registered where the pair alone comes back as one symbol (such pairs are not written next to each other)"},
 		Spaces: func(tier string) []fw.Space {
 			maxLen := 3
 			if tier == "thorough" {
@@ -373,6 +470,26 @@ func init() {
 						}})
 				}
 			}
+			sp = append(sp, fw.Space{Name: "character-classes", N: int64(len(boundaryChars) * 2 * len(c13Neighbours) * 3),
+				Run: func(c *fw.Ctx, i int64) {
+					kind, pool, seq, ok := c13CharCase(i)
+					if !ok {
+						c.Count("skipped_character_is_no_lexeme_on_its_own", 1)
+						return
+					}
+					c13Run(c, kind, pool, seq, 1)
+				},
+				Repr: func(i int64) string {
+					kind, pool, seq, ok := c13CharCase(i)
+					if !ok {
+						return "skipped"
+					}
+					s := []string{}
+					for _, k := range seq {
+						s = append(s, fmt.Sprintf("%q", pool[k].text))
+					}
+					return fmt.Sprintf("%s tokenizer, lexemes [%s] abutting", kind, strings.Join(s, " "))
+				}})
 			return sp
 		},
 		Bounds: func(tier string) string {
